@@ -46,6 +46,8 @@ def run_check(rx, chk, pattern, flags):
     marker = kind in ('end', 'group-start', 'group-end')
     if spec is not None:
         pats.append((spec, sf))
+    if chk.get('spec_lower') is not None:
+        pats.append((chk['spec_lower'], sf))
     for extra in chk.get('also', ()):
         pats.append((extra, 0))
     U = A.make_alphabet(patterns=pats, extra_classes=chk.get('extra_classes', []),
@@ -61,6 +63,18 @@ def run_check(rx, chk, pattern, flags):
     elif kind == 'match-then-whole':
         live = A.lang_match_then_whole(pattern, flags, universe=U)
         want = A.lang_fullmatch(spec, sf, universe=U)
+    elif kind == 'between':
+        # spec_lower <= live <= spec : the statement fixes the language only up to the difference
+        live = A.lang_match_then_whole(pattern, flags, universe=U)
+        upper = A.lang_fullmatch(spec, sf, universe=U)
+        lower = A.lang_fullmatch(chk['spec_lower'], sf, universe=U)
+        w = A.subset(lower, live)
+        if w is not None:
+            return {'equal': False, 'witness': w, 'in_live': False, 'in_spec': True, 'side': 'spec_lower not accepted'}
+        w = A.subset(live, upper)
+        if w is not None:
+            return {'equal': False, 'witness': w, 'in_live': True, 'in_spec': False, 'side': 'accepted outside spec'}
+        return {'equal': True, 'witness': None}
     elif kind == 'first-equals-full':
         live = A.lang_match_then_whole(pattern, flags, universe=U)
         want = A.lang_fullmatch(pattern, flags, universe=U)
